@@ -1,5 +1,6 @@
 (* C01 - the request pipeline is total.  Theorems only. *)
-From GV Require Import Base.Prelude Lang.Lexer Lang.LexerProps.
+From GV Require Import Base.Prelude Lang.Lexer Lang.LexerProps Lang.Ast Lang.Parser Lang.ParserProps
+  Properties.ParserThms.
 
 (* For every source text (any code point list, lone surrogates included, cut off anywhere)
    the lexer model answers with tokens or a located syntax error: it never crashes and its
@@ -25,6 +26,20 @@ Theorem C01_escape_in_bounds : forall pos s v size,
   s <> [] -> read_escape pos s = Ok (v, size) -> (1 <= size <= length s)%nat.
 Proof. exact read_escape_size. Qed.
 Print Assumptions C01_escape_in_bounds.
+
+(* The five parsing entry points (document, value, const value, type, schema coordinate) of the
+   parser model answer every source text - any code-point list, cut off anywhere, nested to any
+   depth - and every option setting with a tree or a located syntax error: never a crash, fuel
+   (number of tokens + 1) never exhausted.  Proofs: Lang/ParserProps.v. *)
+Theorem C01_parse_entries_total : forall e o s,
+  (exists d c, parse_text e o s = Ok (d, c)) \/ (exists p, parse_text e o s = SyntaxErr p).
+Proof. exact parser_total_on_text. Qed.
+Print Assumptions C01_parse_entries_total.
+
+Theorem C01_parse_entries_total_on_tokens : forall e o ts,
+  (exists d c, parse_entry e o ts = Ok (d, c)) \/ (exists p, parse_entry e o ts = SyntaxErr p).
+Proof. exact parser_total_on_tokens. Qed.
+Print Assumptions C01_parse_entries_total_on_tokens.
 
 (* non-vacuity: the two inputs that crashed the unfixed implementation are plain syntax errors *)
 Example C01_truncated_escapes :
